@@ -185,6 +185,53 @@ func Drive(r events.DataEventReceiver, e E) {
 	}
 }
 
+// DriveWindow drives e like Drive, but every byte-slice argument is handed over as a slice of ONE reusable window buffer
+// with spare capacity (what a streaming decoder does): a receiver that keeps or appends to the caller's slice shows.
+func DriveWindow(r events.DataEventReceiver, e E, win []byte) {
+	w := func(b []byte) []byte {
+		if len(b) > len(win) {
+			return cp(b)
+		}
+		copy(win, b)
+		return win[:len(b)]
+	}
+	switch e.K {
+	case Comment:
+		r.OnComment(e.B, w(e.Data))
+	case UID:
+		r.OnUID(w(e.Data))
+	case RecordType:
+		r.OnRecordType(w(e.Data))
+	case Record:
+		r.OnRecord(w(e.Data))
+	case Marker:
+		r.OnMarker(w(e.Data))
+	case Ref:
+		r.OnReferenceLocal(w(e.Data))
+	case Array:
+		r.OnArray(e.AT, e.U, w(e.Data))
+	case Media:
+		r.OnMedia(e.S, w(e.Data))
+	case CustomBin:
+		r.OnCustomBinary(e.U, w(e.Data))
+	case Data:
+		r.OnArrayData(w(e.Data))
+	default:
+		Drive(r, e)
+	}
+}
+
+// TryDriveWindow is DriveWindow with the receiver's panic converted into an error.
+func TryDriveWindow(r events.DataEventReceiver, e E, win []byte) (err error) {
+	defer func() {
+		if x := recover(); x != nil {
+			err = fmt.Errorf("%v", x)
+		}
+	}()
+	DriveWindow(r, e, win)
+	return nil
+}
+
 func cp(b []byte) []byte {
 	if b == nil {
 		return nil
